@@ -451,15 +451,20 @@ var c08Shapes = []J{
 	// itself nothing but a reference to the renamed one is that component's own name (renaming does not travel)
 	{"$ref": "#/components/schemas/Z"},
 	{"$ref": "#/components/schemas/ZAlias"},
+	// a reference to a component that opts out of the optional pointer: the member is not a pointer
+	{"$ref": "#/components/schemas/NoPtr"},
 }
 var c08ShapeDoc = []string{"[]string", "[]Y", "map[string]interface{}", "map[string]interface{}", "map[string]int", "map[string]Y", "Y", "[][]int",
 	"[]X_Item", "[]X_Item", "[]X_Item",
 	"struct{P *string p,omitempty; Q int q}", "struct{A string a; Q int q; R *bool r,omitempty}", "struct{P string p; Q *int q,omitempty; S string s}",
-	"ZRenamed", "ZAlias"}
+	"ZRenamed", "ZAlias", "NoPtr"}
 
 // as the member m of H the item type is named after the path to it
 var c08ShapeDocMember = map[int]string{8: "[]HM", 9: "[]H_M_Item", 10: "[]H_M_Item",
 	11: "struct{P *string p,omitempty; Q int q}", 12: "struct{A string a; Q int q; R *bool r,omitempty}", 13: "struct{P string p; Q *int q,omitempty; S string s}"}
+
+// shapes whose optional member is not a pointer
+var c08ShapeNoPointer = map[int]bool{16: true}
 
 // c08Canon: a struct type as "struct{<Field> <type> <json name>[,omitempty]; ...}" (fields in the order of the
 // declaration); any other type expression unchanged
@@ -498,14 +503,15 @@ func c08ShapeRows() []c08ShapeRow {
 	y := J{"type": "object", "properties": J{"a": J{"type": "string"}}}
 	z := J{"type": "object", "x-go-name": "ZRenamed", "properties": J{"a": J{"type": "string"}}}
 	zAlias := J{"$ref": "#/components/schemas/Z"}
+	noPtr := J{"type": "object", "x-go-type-skip-optional-pointer": true, "additionalProperties": J{"type": "string"}}
 	for i, sh := range c08Shapes {
-		gs, err := c08Schema(wDoc(J{}, J{"schemas": J{"X": copyJ(sh), "Y": y, "Z": z, "ZAlias": zAlias}}), "X", codegen.Configuration{})
+		gs, err := c08Schema(wDoc(J{}, J{"schemas": J{"X": copyJ(sh), "Y": y, "Z": z, "ZAlias": zAlias, "NoPtr": noPtr}}), "X", codegen.Configuration{})
 		got := "error"
 		if err == nil {
 			got = c08Canon(gs.TypeDecl())
 		}
 		rows = append(rows, c08ShapeRow{i, false, got})
-		hs, err := c08Schema(wDoc(J{}, J{"schemas": J{"H": J{"type": "object", "properties": J{"m": copyJ(sh)}}, "Y": y, "Z": z, "ZAlias": zAlias}}), "H", codegen.Configuration{})
+		hs, err := c08Schema(wDoc(J{}, J{"schemas": J{"H": J{"type": "object", "properties": J{"m": copyJ(sh)}}, "Y": y, "Z": z, "ZAlias": zAlias, "NoPtr": noPtr}}), "H", codegen.Configuration{})
 		got = "error"
 		if err == nil {
 			got = "no-member"
@@ -654,7 +660,9 @@ func runC08(ctx *Ctx) error {
 			if m, ok := c08ShapeDocMember[r.Shape]; ok {
 				want = m
 			}
-			want = "*" + want
+			if !c08ShapeNoPointer[r.Shape] {
+				want = "*" + want
+			}
 		}
 		if r.Got != want {
 			ctx.Res.Violate(fmt.Sprintf("shape:%d:member=%v", r.Shape, r.AsMember), fmt.Sprintf("schema %s (as a member: %v) is rendered as %s, documented %s", Canon(c08Shapes[r.Shape]), r.AsMember, r.Got, want), J{"schema": c08Shapes[r.Shape], "member": r.AsMember})
@@ -679,6 +687,27 @@ func runC08(ctx *Ctx) error {
 		if !okc {
 			ctx.Res.Violate(fmt.Sprintf("field:req=%v:null=%v:ro=%v:wo=%v:skip=%d:xomit=%d:ignore=%v:nt=%v:rof=%v", r.Required, r.Nullable, r.ReadOnly, r.WriteOnly, r.SkipPtr, r.XOmit, r.JSONIgnore, r.NullableType, r.ROFlag),
 				fmt.Sprintf("member rendered as %q; documented pointer=%v nullable-wrapper=%v omitempty=%v", r.Line, c08DocPointer(r), r.NullableType && r.Nullable, c08DocOmit(r)), J{"cell": r})
+		}
+	}
+	// a component generated under its own name in one generation and renamed (x-go-name) in the next one of the process:
+	// the references follow the second document
+	{
+		mk := func(renamed bool) J {
+			u := J{"type": "object", "properties": J{"n": J{"type": "string"}}}
+			if renamed {
+				u["x-go-name"] = "Person"
+			}
+			return wDoc(J{}, J{"schemas": J{"user": u, "Team": J{"type": "object", "required": []interface{}{"owner"}, "properties": J{"owner": J{"$ref": "#/components/schemas/user"}, "members": J{"type": "array", "items": J{"$ref": "#/components/schemas/user"}}}}}})
+		}
+		ctx.Res.Eval(J{"sequence": "plain then renamed"}, true)
+		if _, err := c08View(mk(false)); err == nil {
+			if v, err := c08View(mk(true)); err == nil {
+				for _, f := range v.Fields["Team"] {
+					if f.Name == "Owner" && f.Type != "Person" || f.Name == "Members" && f.Type != "[]Person" {
+						ctx.Res.Violate("rename-after-plain:"+f.Name, fmt.Sprintf("a document whose schema user carries x-go-name Person, generated after a document where it does not: member %s is of type %s", f.Name, f.Type), J{"doc": mk(true)})
+					}
+				}
+			}
 		}
 	}
 	// x-go-type-import: one package path may be imported under several names; every name a type uses is imported
